@@ -453,6 +453,10 @@ func (p *parser) parseArrayLiteral() Node {
 		if n == nil {
 			return nil // previous error
 		}
+		if n.Type() == NONE_TYPE {
+			p.appendErrorForToken("array element has no value", n.Token())
+			return nil
+		}
 		elements = append(elements, n)
 		multi = append(multi, multilineEl)
 		multi = append(multi, p.parseMulitlineWS()...)
@@ -551,6 +555,10 @@ func (p *parser) parseMapPairs(mapLit *MapLiteral) bool {
 		n := p.parseExprWSS()
 		if n == nil {
 			return false // previous error
+		}
+		if n.Type() == NONE_TYPE {
+			p.appendErrorForToken("map value has no value", n.Token())
+			return false
 		}
 		mapLit.Pairs[key] = n
 		mapLit.Order = append(mapLit.Order, key)
